@@ -363,7 +363,35 @@ def check(ctx):
     else:
         ctx.note("_make_same_length always extends both operands: no range-guard obligation for LT/GT")
 
+    # ---- spare sign bit: for unequal widths both operands of the subtraction are extended to max width + d, d >= 1
+    R = "C10.sign"
+    from ..sym import Env, Poly, _sym
+    br = [s for s in statements(msl.node) if isinstance(s, ast.If) and ast.unparse(s.test) in ("len(xs) < len(ys)", "len(ys) > len(xs)")]
+    ctx.require(len(br) == 1, "_make_same_length: the `len(xs) < len(ys)` branch was not found")
+    env = Env()
+    fresh_n = {}
+    for st in br[0].body:
+        if isinstance(st, ast.Assign) and isinstance(st.value, ast.Call) and call_attr(st.value) == "get_n_fresh" and isinstance(st.targets[0], ast.Name):
+            fresh_n[st.targets[0].id] = _sym(st.value.args[0], env)
+    added = {"xs": Poly.const(0), "ys": Poly.const(0)}
+    for st in br[0].body:
+        if isinstance(st, ast.Assign) and isinstance(st.targets[0], ast.Subscript) and ast.unparse(st.targets[0].slice) == ":0" and \
+                dotted(st.targets[0].value) in added and isinstance(st.value, ast.Name) and st.value.id in fresh_n:
+            added[dotted(st.targets[0].value)] = added[dotted(st.targets[0].value)] + fresh_n[st.value.id]
+    dy = added["ys"].const_value()
+    diff = added["xs"] - added["ys"]
+    want = _sym(ast.parse("len(ys) - len(xs)", mode="eval").body, env)
+    ctx.check(diff == want, R, msl, "equal widths: xs +%s, ys +%s" % (added["xs"], added["ys"]), "after padding both operands have the same width",
+              "the shorter operand receives %s leading zeros and the longer %s: the widths differ by %s instead of 0" % (added["xs"], added["ys"], diff - want), br[0])
+    ctx.check(dy is not None and dy >= 1, R, msl, "spare sign bit +%s" % added["ys"], "both operands get at least one spare leading zero, so the top bit of the difference is its sign",
+              "for unequal widths the longer operand gets no spare leading zero (%s): sum - k can overflow the width and the asserted top bit is not the sign" % added["ys"], br[0])
+    rec = [s for s in statements(msl.node) if isinstance(s, ast.Expr) and ast.unparse(s.value) == "self._make_same_length(ys, xs)"]
+    ctx.check(len(rec) == 1, R, msl, "symmetric case", "the other orientation swaps the roles", "the `len(xs) > len(ys)` case no longer mirrors the first")
+
     mod = sys.modules[__name__]
+    control(ctx, mod, "no spare sign bit",
+            lambda s: variants.in_function(s, "sweetpea/_internal/core/cnf.py", "CNF._make_same_length",
+                                           "            ys[:0] = one_more_zero\n", "            pass\n"), "C10.sign")
     control(ctx, mod, "swap the orientation of the LT/GT wrappers",
             lambda s: variants.in_function(s, "sweetpea/_internal/core/cnf.py", "CNF.assert_k_less_than_n",
                                            "self._inequality_assertion(True, k, in_list)", "self._inequality_assertion(False, k, in_list)"), "C10.dispatch")
@@ -376,4 +404,5 @@ def check(ctx):
     ctx.min_instances("C10.dispatch", 18)
     ctx.min_instances("C10.bit-order", 5)
     ctx.min_instances("C10.range", 3)
+    ctx.min_instances("C10.sign", 3)
     ctx.min_instances("C10.defined", 6)
